@@ -317,3 +317,12 @@ Example C09_r_nonvacuous :
              (run step (init (cfg_g true 4)) exr_run)
   = Some ([PDone RMsg; PDone REOF; PDone REOF], [CLRet; CLRet], 0, 0, 1, true, true, true, true).
 Proof. vm_compute. reflexivity. Qed.
+
+(* ---- the synchronisation skeleton the Writer model assumes (which Go critical section each
+   label of Model/Writer.v stands for: Model/SkeletonAssumptions.v, writer_assumptions) holds
+   of /repo's CURRENT source: facts regenerated by harness/cmd/vskel on every run. *)
+From KV Require Model.SkeletonAssumptions Gen.Skeleton Proofs.SkeletonWriter.
+Theorem C09_skeleton_assumptions :
+  KV.Model.SkeletonAssumptions.writer_assumptions_hold KV.Gen.Skeleton.calls KV.Gen.Skeleton.accesses = true.
+Proof. exact KV.Proofs.SkeletonWriter.writer_skeleton_ok. Qed.
+Print Assumptions C09_skeleton_assumptions.
